@@ -98,7 +98,11 @@ func c13HL(s, a *sipsp.HdrLst) string {
 		r.Val("PFlags", int64(h.PFlags))
 		for t := sipsp.HdrNone + 1; t < sipsp.HdrOther; t++ {
 			o := r.InIdx("GetHdr", int(t))
-			sut.SnapHdr(r, h.GetHdr(t))
+			if g := h.GetHdr(t); g != nil && !g.Missing() {
+				sut.SnapHdr(r, g)
+			} else {
+				r.Val("missing", 1)
+			}
 			r.Out(o)
 		}
 	}); d != "" {
